@@ -40,6 +40,16 @@ def knownValueOverrides : List (String × String) :=
 
 theorem value_overrides_all_known : Generated.MLOverrides.valueOverrides = knownValueOverrides := by decide
 
+/-- The operators of the default domain that SAMPLE (a built model draws afresh on every run, so no value
+    computed from one sample may reach a reported shape) are all excluded from value propagation: the
+    exclusion set read from `_standard.py` on this run — empty if `propagate_values_onnx` no longer
+    consults it — contains every one of them. -/
+def samplingOps : List String :=
+  ["Bernoulli", "Dropout", "Multinomial", "RandomNormal", "RandomNormalLike", "RandomUniform", "RandomUniformLike"]
+
+theorem sampling_ops_guarded :
+    samplingOps.all (fun n => Generated.MLOverrides.samplingGuard.contains n) = true := by decide
+
 /-! ## ai.onnx.ml operators -/
 
 theorem binarizer_sound (x : ITy) (v : RtVal) (outs : List ITy) (w : List RtVal)
@@ -404,6 +414,46 @@ theorem compress_sound (axis : Option Int) (x c : ITy) (vx vc : RtVal) (k : Nat)
               simp only [Option.some.injEq] at hr; subst hr
               simp [conformsAll, conforms, tensor, hex, dimsOk_set_anon i k hsx]
 
+/-- The repaired Compress routine (`inferCompressFixed`: a vector for an input of unknown rank when no
+    axis is given) is sound as well — whichever of the two variants the source implements is covered. -/
+theorem compress_fixed_sound (axis : Option Int) (x c : ITy) (vx vc : RtVal) (k : Nat) (outs : List ITy)
+    (w : List RtVal) (hi : inferCompressFixed axis x c = .ok outs) (hcx : conforms vx x = true)
+    (hcc : conforms vc c = true) (hr : rtCompress axis k vx = some w) : conformsAll w outs = true := by
+  rcases x with _ | ⟨e, s⟩
+  · exact compress_sound axis none c vx vc k outs w (by simpa [inferCompressFixed, inferCompress] using hi) hcx hcc hr
+  rcases c with _ | ct
+  · exact compress_sound axis (some ⟨e, s⟩) none vx vc k outs w (by simpa [inferCompressFixed, inferCompress] using hi) hcx hcc hr
+  rcases s with _ | ds
+  · -- unknown rank
+    obtain ⟨xe, xs⟩ := vx
+    simp only [conforms, Bool.and_eq_true, beq_iff_eq] at hcx
+    obtain ⟨hex, -⟩ := hcx
+    unfold inferCompressFixed at hi
+    simp only at hi
+    split at hi
+    · simp at hi
+    · rcases axis with _ | a
+      · simp only at hi
+        split at hi
+        · simp at hi
+        · simp only [Res.ok.injEq] at hi; subst hi
+          simp only [rtCompress, Option.some.injEq] at hr; subst hr
+          simp [conformsAll, conforms, tensor, dimsOk, dimOk, hex]
+      · simp only [Res.ok.injEq] at hi; subst hi
+        simp only [rtCompress] at hr
+        split at hr
+        · simp at hr
+        · simp only [Option.some.injEq] at hr; subst hr
+          simp [conformsAll, conforms, hex]
+  · -- known rank: the routine is unchanged
+    have : inferCompress axis (some ⟨e, some ds⟩) (some ct) = .ok outs := by
+      unfold inferCompressFixed at hi
+      simp only at hi
+      split at hi
+      · simp at hi
+      · exact hi
+    exact compress_sound axis _ _ vx vc k outs w this hcx hcc hr
+
 /-! ## `_strip_dim_symbol`, inline -/
 
 /-- Forgetting symbolic dims only weakens a type. -/
@@ -752,6 +802,59 @@ theorem loop_scan_tripcount_sound_partial (body : Body)
     simp [dimOk]
 
 example : loopRun breakAt2 4 0 true [⟨.f32, [3]⟩] = some ([⟨.f32, [3]⟩], [[⟨.i64, [1]⟩], [⟨.i64, [1]⟩]]) := by decide
+
+/-- An omitted trip count behaves like any trip count the run does not exhaust: whatever a run without
+    `M` produces, the run with `M = fuel` produces too. So every soundness theorem stated for `loopRun`
+    (carried values, body arguments, scan outputs) also covers loops whose trip count is omitted. -/
+theorem loopRunUntil_eq_loopRun (body : Body) : ∀ (f i : Nat) (c : Bool) (vs : List RtVal)
+    (r : List RtVal × List (List RtVal)), loopRunUntil body f i c vs = some r → loopRun body f i c vs = some r := by
+  intro f
+  induction f with
+  | zero =>
+    intro i c vs r h
+    cases c with
+    | false => simpa [loopRunUntil, loopRun] using h
+    | true => simp [loopRunUntil] at h
+  | succ m ih =>
+    intro i c vs r h
+    cases c with
+    | false => simpa [loopRunUntil, loopRun] using h
+    | true =>
+      simp only [loopRunUntil] at h
+      simp only [loopRun]
+      split at h
+      · simp at h
+      · rename_i c' vs' sc hb
+        split at h
+        · simp at h
+        · rename_i fin' scs' hr
+          have := ih (i + 1) c' vs' (fin', scs') hr
+          simp only [this]
+          exact h
+
+/-- Both optional inputs: a run of `Loop` with `M` and / or `cond` omitted is a `loopRun` (with
+    `M := fuel` resp. `c0 := true`). -/
+theorem loopRunOpt_is_loopRun (body : Body) (M : Option Nat) (cond : Option Bool) (fuel : Nat)
+    (vs : List RtVal) (r : List RtVal × List (List RtVal)) (h : loopRunOpt body M cond fuel vs = some r) :
+    loopRun body (M.getD fuel) 0 (cond.getD true) vs = some r := by
+  cases M with
+  | some m => simpa [loopRunOpt] using h
+  | none => exact loopRunUntil_eq_loopRun body fuel 0 (cond.getD true) vs r (by simpa [loopRunOpt] using h)
+
+/-- Scan outputs of a loop WITHOUT a trip count: same reported type, same soundness. -/
+theorem loop_scan_output_sound_noM (a s : List Ty) (body : Body) (cond : Option Bool) (fuel : Nat)
+    (v0 fin : List RtVal) (scs : List (List RtVal)) (j : Nat) (t : Ty) (w : RtVal)
+    (hinit : conformsAll v0 (a.map some) = true)
+    (hbody : ∀ i vs c vs' sc, conformsAll vs (a.map some) = true → body i vs = some (c, vs', sc) →
+        conformsAll sc (s.map some) = true)
+    (hrun : loopRunOpt body none cond fuel v0 = some (fin, scs)) (hj : s[j]? = some t)
+    (hs : stackScan (column scs j) = some w) : conforms w (some (scanTy t)) = true :=
+  loop_scan_output_sound a s body fuel (cond.getD true) v0 fin scs j t w hinit hbody
+    (by simpa using loopRunOpt_is_loopRun body none cond fuel v0 (fin, scs) hrun) hj hs
+
+example : loopRunOpt breakAt2 none none 10 [⟨.f32, [3]⟩] = some ([⟨.f32, [3]⟩], [[⟨.i64, [1]⟩], [⟨.i64, [1]⟩]]) := by decide
+example : loopRunOpt (fun _ vs => some (true, vs, [])) none none 10 [⟨.f32, [3]⟩] = none := by decide
+
 
 /-- No modelled routine turns a non-tensor input into a tensor claim: it raises, or (Binarizer,
     Normalizer) hands the non-tensor type through — for which no runtime value exists. -/
